@@ -27,8 +27,18 @@ def conc(t):
 
 def solve_for(ex, terms):
     s = z3.Solver()
-    s.add(smt.library_axioms(ex.pc + [toz(t) for t in terms]))
-    s.add(ex.pc)
+    s.set(timeout=4000)
+    # the inputs are concrete: quantified model axioms are instantiated over the (small) concrete index range
+    hyps = []
+    for h in ex.pc:
+        hyps += smt._flatten_and(h)
+    for h in hyps:
+        if z3.is_quantifier(h) and h.is_forall() and h.num_vars() == 1 and h.var_sort(0) == z3.IntSort():
+            for i in range(-1, 8):
+                s.add(z3.substitute_vars(h.body(), z3.IntVal(i)))
+        else:
+            s.add(h)
+    s.add(smt.ground_library(list(s.assertions()) + [toz(t) for t in terms]))
     if s.check() != z3.sat:
         return None
     m = s.model()
